@@ -234,6 +234,21 @@ def run_unit(ctx, u):
     # ---- (a) perfect channel, batch sizes 1 and 4 and all messages
     judge("link:perfect channel", "none", PerfectChannel(), msgs_all)
     judge("link:perfect channel", "none", PerfectChannel(), msgs_all[:1])
+    # the same message bits in other dtypes: a chain that accepts them must still return the message
+    for dt in (torch.int64, torch.uint8, torch.float64):
+        mm = msgs_all[: min(8, msgs_all.shape[0])].to(dt)
+        try:
+            modems.fresh(mod, dem)
+            model = ChannelCodeModel(enc, IdentityConstraint(), tx_mod, PerfectChannel(), dem, dec)
+            with contextlib.redirect_stdout(io.StringIO()):
+                out = model(mm, noise_var=1.0) if soft else model(mm)
+        except Exception:  # noqa: BLE001
+            ctx.skip(f"chain rejects {str(dt).replace('torch.', '')} messages")
+            continue
+        out = out[0] if isinstance(out, tuple) else out
+        ctx.case(u["unit"], "dtype", str(dt))
+        ok = tuple(out.shape) == tuple(mm.shape) and bool((out.double().round() == mm.double()).all())
+        ctx.check(ok, "link:perfect channel", f"{chain}|none|link:perfect channel|wrong message for {str(dt).replace('torch.', '')} message bits", unit=u["unit"], message=mm[-1], decoded=out[-1] if out.dim() > 1 else list(out.shape))
     judge("link:perfect channel", "none", PerfectChannel(), msgs_all[1:5])
 
     # ---- (b) <= t flips per block (hard-decision chains)
